@@ -84,12 +84,13 @@ R = {
    tech="TLA+ symbolic adversary model + TLC exhaustive model checking; generated fault cases replayed on the real code"),
 }
 X = {
+ "C17": " KeyProofDeps.tla models the statement graph of the proof under a re-proving adversary that sends Pedersen commitments as 0 modulo the group prime (D29, repaired); the scenarios are built by a cheating prover inside the package (tag verif) and given to the unmodified verifier. ZkProof.tla checks the representation-proof engine in a concrete toy group (Complete, Sound2, Absorbing) and is replayed with exact numeric comparison on the real zkproof package.",
  "C01": " Every case is judged in a fresh ProofD object and in one that verified an honest proof before and was overwritten field by field (the verdict must not depend on the object's history).",
  "C04": " Builder.tla adds the caller's view of the DisclosureProofBuilder: the list of indices in any order and with repetitions, and TimestampRequestContributions asked for in every phase of the life cycle; every complete life cycle is driven through the real builder.",
  "C05": " Every forged case is also judged in a CLSignature object that verified a genuine signature before and was overwritten in place. CLSign.tla models the issuer under every scripted random stream (SignerSound, VInRange, FirstPrime); every script is fed to SignMessageBlock through a replaced crypto/rand.Reader.",
  "C09": " Witness.Updated is part of the model's witness and of every comparison; RevocationGen3.tla enumerates every sequence of 3 (4) applications of one shared update object to three witnesses lagging behind by different amounts, each replayed step by step.",
  "C11": " Attacks include degenerate group elements: Cr / Cu replaced by a representative of 0 mod n and a proof built from scratch by a (possibly revoked) holder around Cr = Cu = 0 with zeros hashed (D28, repaired).",
- "C12": " The attachment model has range proofs with commitments 0 mod n (switch NonzeroCs, D27, repaired): forge-zero cases are built for real by a prover that hashes zeros.",
+ "C12": " ZkProof.tla (Qr variant) checks the representation-proof engine the range proofs use in a concrete toy group and is replayed exactly on the real zkproof package. The attachment model has range proofs with commitments 0 mod n (switch NonzeroCs, D27, repaired): forge-zero cases are built for real by a prover that hashes zeros.",
  "C08": " Every wrong-type mutation is replayed with all 12 concrete wrong values (other JSON types, fractions, negatives, non-base64, padding-only and badly padded base64).",
 }
 def main():
